@@ -472,7 +472,7 @@ def run(prog: Program, rep: Report, tier: str):
     rep.rule("R17.4", "raising issubclass predicates only behind the special-form filters", floor=20)
     rep.rule("R17.5", "BUILTIN ⊂ STDLIB; tuple forms derived from the sets", floor=5)
     rep.rule("R17.6", "abstract predicate evaluation agrees with the runtime hierarchy on the catalogue", floor=20)
-    rep.rule("R17.7", "memoised accessors are stable across equal-but-differently-spelled annotations (shared with R12.3)", floor=2)
+    rep.rule("R17.7", "memoised accessors are stable across equal-but-differently-spelled annotations (shared with R12.3)", floor=1)
     pairs, loc = origin_map_kinds(prog, rep)
     r17_2(prog, rep, pairs, loc)
     facts = r17_3(prog, rep)
